@@ -14,7 +14,7 @@ SEVS = ["debug", "command", "info", "warning", "error", "fatal"]
 FACS = ["core", "config", "f1", "f2", "a_facility_with_quite_a_long_name"]
 LINE_RE = re.compile(r"^\[\d\d:\d\d:\d\d \d\d/\d\d/\d{4}\] \(([^:()\s]+):(\w+)\) (.*)$")
 MSG_RE = re.compile(r"^MSG r=(\d+) f=(\S+) s=(\w+)$")
-LONG_RE = re.compile(r"^MSG r=(\d+) f=(\S+) s=(\w+) p=(\d*)$")
+LONG_RE = re.compile(r"^MSG r=(\d+) f=(\S+) s=(\w+) p=([0-9\r]*)$")
 LONG_LENS = [600, 990, 1000, 1023, 1024, 1100, 2048, 5000]
 LONG_SEVS = (2, 4)
 
@@ -23,7 +23,10 @@ FULL = "/dev/full"
 
 
 def padding(n):
-    return "".join(chr(48 + i % 10) for i in range(n))
+    s = [chr(48 + i % 10) for i in range(n)]
+    if n >= 16:
+        s[n // 2] = "\r"       # (as in h_conf: a carriage return inside the text is part of the message)
+    return "".join(s)
 
 
 def randcase(rng, s):
@@ -259,6 +262,10 @@ def _worker(a):
                         out.append(("line-format", "line-format:long", "text of a %d-byte message garbled: %r..." % (want_len, m.group(3)[:80]), wit))
                     if len(mm.group(4)) == want_len:
                         stats["long_lines_untruncated"] += 1
+                    elif len(m.group(3)) < 1023:
+                        # the logger formats into 1024 bytes: a text may be cut there and nowhere else
+                        out.append(("line-format", "line-format:cut-short", "a %d-byte message was written cut to %d bytes (the formatting buffer holds 1023): %r..." % (
+                            want_len, len(m.group(3)), m.group(3)[-40:]), wit))
                     got.setdefault((int(mm.group(1)), mm.group(2), mm.group(3)), {}).setdefault(d, 0)
                     got[(int(mm.group(1)), mm.group(2), mm.group(3))][d] += 1
                 elif m.group(3).startswith("MSG"):
